@@ -176,7 +176,15 @@ def _r1(repo, L, m, ba):
             ok, why = False, f"the owning result is registered {len(regs)} times for a contig on a path"
             continue
         holder = norm(regs[0].func.value)
-        stores = [(norm(e.node.targets[0]), norm(e.node.value)) for e in p.events if e.kind == "stmt" and isinstance(e.node, ast.Assign) and isinstance(e.node.targets[0], ast.Subscript)]
+        stores = []
+        for e in p.events:
+            if e.kind == "stmt" and isinstance(e.node, ast.Assign):
+                subs = [t for t in e.node.targets if isinstance(t, ast.Subscript)]
+                names = [norm(t) for t in e.node.targets if isinstance(t, ast.Name)]
+                for t in subs:
+                    # `v = d[k] = E` stores the object v names
+                    for val in [norm(e.node.value), *names]:
+                        stores.append((norm(t), val))
         existing = None
         for e in p.events:
             if e.kind == "cond":
@@ -185,6 +193,8 @@ def _r1(repo, L, m, ba):
                         existing = v
                     elif norm(t) == holder:
                         existing = v
+                    elif isinstance(t, ast.Compare) and len(t.ops) == 1 and norm(t.left) == holder and isinstance(t.comparators[0], ast.Constant) and t.comparators[0].value is None and isinstance(t.ops[0], ast.Is | ast.IsNot):
+                        existing = (not v) if isinstance(t.ops[0], ast.Is) else v
         if existing is True:
             kinds.add("again")
             if not any(val == holder for _, val in stores):
@@ -199,7 +209,12 @@ def _r1(repo, L, m, ba):
     if kinds != {"again", "first"}:
         ok, why = False, why or "recorder lacks the first-find or the repeated-find path"
     L.check(ok, "R1", store.short, "every fragment keyed and its owner registered; repeated finds enter the shared map", why, store.loc())
-    keys = {norm(n.value) for n in walk_shallow(lp) if isinstance(n, ast.Assign) and isinstance(n.targets[0], ast.Name) and "key" in norm(n.value)}
+    keys = set()
+    for n in walk_shallow(lp):
+        if isinstance(n, ast.Subscript) and isinstance(n.ctx, ast.Store) and not isinstance(n.slice, ast.Slice):
+            keys.add(norm(resolve_local(store, n.slice)))
+        if isinstance(n, ast.Call) and isinstance(n.func, ast.Attribute) and n.func.attr in ("get", "setdefault") and n.args:
+            keys.add(norm(resolve_local(store, n.args[0])))
     L.check(keys == {f"{fv}.key_tuple"}, "R1", store.short + ":key", "keyed by (name, start, end)", f"recorder keys contigs by {sorted(keys)}", store.loc())
     frag = repo.cls("Fragment")
     kt = frag.methods.get("key_tuple")
